@@ -391,7 +391,16 @@ class ConfigRun(object):
                 sim.probe('list-emptied')
             sim.probe('assign-list')
             sim.log('assign', o.name, new)
-            setattr(self.cfg, self.name_case(o), list(new) if value is None else value)
+            assigned = list(new)
+            if value is None and typ == 'PORT' and new and all(x.isdigit() for x in new) and ch.chance(1, 3, 'intlist'):
+                assigned = [int(x) for x in new]       # conf.SOCKSPort = [9050, 1337]
+                sim.probe('list-element-int')
+            # (only a real list is accepted for a list option: tuples are refused with ValueError, so none is generated)
+            setattr(self.cfg, self.name_case(o), assigned if value is None else value)
+            # (an assignment that repeats, as text, what a save in flight carries counts as saved with it - unless its
+            # elements are not str: whether [9200] "is" the ['9200'] in flight is not prescribed, and then the
+            # assignment simply stays pending, see on_save_done)
+            o.nonstr = any(not isinstance(x, str) for x in (assigned if value is None else value))
             o.local = list(new)
             o.assigned = True
             self.mark(o)
@@ -446,25 +455,56 @@ class ConfigRun(object):
             ops = ['append', 'extend']      # placeholder element present: positions differ from the mirror
         op = ch.pick(ops, 'lop')
         tag = '%s%d' % ('9' if o.typ == 'PORT' else 'ip', 200 + o.version)
+        tag2 = tag + '1'
+        if o.typ == 'PORT' and ch.chance(1, 3, 'inttag'):
+            # port lists are documented with int elements (conf.SOCKSPort = [9050, 1337])
+            tag, tag2 = int(tag), int(tag2)
+            sim.probe('list-element-int')
+        if o.name.lower() in self.unacked and not self.in_flight_option(o) and ch.chance(1, 3, 'lfail') and \
+                not any(str(x) == 'DEFAULT' for x in lst):
+            # an in-place operation that raises (no such item, index out of range) on an option that already has unsaved
+            # edits: the list is untouched and the earlier edits are still pending (what a failing operation does to
+            # an option WITHOUT pending changes is not prescribed, so that is not generated)
+            kind = ch.pick(['remove-missing', 'pop-out-of-range', 'setitem-out-of-range'], 'lfailkind')
+            sim.probe('list-operation-raised-on-pending-option')
+            sim.log('inplace-failing', o.name, kind)
+            try:
+                if kind == 'remove-missing':
+                    lst.remove('no such item')
+                elif kind == 'pop-out-of-range':
+                    lst.pop(len(lst) + 3)
+                else:
+                    lst[len(lst) + 2] = tag
+            except (ValueError, IndexError):
+                pass
+            else:
+                sim.fail(self.prop + '.list-operation-did-not-raise', '%s on %s (%r) did not raise' % (kind, o.name, lst))
+            if [str(x) for x in lst] != [str(x) for x in mirror]:
+                sim.fail(self.prop + '.pending-list-edits-lost', 'option %s reads %r after a failed %s, the unsaved content was %r' % (
+                    o.name, lst, kind, mirror))
+            if not self.cfg.needs_save():
+                sim.fail(self.prop + '.pending-edits-forgotten-after-failed-list-operation',
+                         'option %s had unsaved edits; after a %s that raised, needs_save() is False' % (o.name, kind))
+            return
         if (op in ('remove', 'pop')) and len(mirror) == 1 and not sim.gate('emptied-list'):
             op = 'append'
         sim.probe('list-' + op)
         sim.log('inplace', o.name, op)
         if op == 'append':
             lst.append(tag)
-            mirror.append(tag)
+            mirror.append(str(tag))
         elif op == 'append-pop':
             # two edits that cancel out: the option is pending, its save changes nothing at Tor (so Tor announces
             # nothing and the same list object stays in the view)
             lst.append(tag)
             lst.pop()
         elif op == 'extend':
-            lst.extend([tag, tag + '1'])
-            mirror.extend([tag, tag + '1'])
+            lst.extend([tag, tag2])
+            mirror.extend([str(tag), str(tag2)])
         elif op == 'insert':
             i = ch.draw(len(mirror) + 1, 'ins')
             lst.insert(i, tag)
-            mirror.insert(i, tag)
+            mirror.insert(i, str(tag))
         elif op == 'remove':
             i = ch.draw(len(mirror), 'rm')
             lst.remove(lst[i])
@@ -475,7 +515,7 @@ class ConfigRun(object):
         else:
             i = ch.draw(len(mirror), 'si')
             lst[i] = tag
-            mirror[i] = tag
+            mirror[i] = str(tag)
         if not mirror:
             sim.probe('list-emptied')
         self.mark(o)
@@ -498,7 +538,10 @@ class ConfigRun(object):
         snap = {}
         for lname in self.unacked:
             o = self.opts[lname]
-            snap[lname] = (o.version, self.canon(o))
+            raw = self.peek_unsaved(o) if o.typ in LISTY else None
+            # (a list in flight that still holds the DEFAULT placeholder element is not "the same" as a later
+            # assignment of its real elements)
+            snap[lname] = (o.version, self.canon(o) if not (isinstance(raw, list) and any(str(x) == 'DEFAULT' for x in raw)) else None)
             if o.typ in LISTY:
                 vals = [str(x) for x in o.local]
                 items[lname] = vals if vals else ['<clear>']
@@ -511,6 +554,16 @@ class ConfigRun(object):
         sim.log('save', sorted(items.items()))
         d = self.cfg.save()
         self.watch_save(d, exp)
+
+    def peek_unsaved(self, o):
+        try:
+            pending = self.cfg.unsaved
+            for k in pending:
+                if k.lower() == o.name.lower():
+                    return pending[k]
+        except Exception:
+            pass
+        return None
 
     def canon(self, o):
         if isinstance(o.local, list):
@@ -546,7 +599,7 @@ class ConfigRun(object):
             for lname, (ver, val) in exp['snapshot'].items():
                 self.view_unspecified.discard(lname)
                 o = self.opts[lname]
-                if (o.version == ver or self.canon(o) == val) and lname in self.unacked:
+                if (o.version == ver or (self.canon(o) == val and not getattr(o, 'nonstr', False))) and lname in self.unacked:
                     self.unacked.remove(lname)
                     o.assigned = False
             self.had_reject = False
